@@ -235,3 +235,52 @@ def verdict(v, wants) -> str:
     if _av.has_unk(v) and any(_av.compatible(v, w) for w in wants):
         return "unknown"
     return "bad"
+
+
+# ---------------------------------------------------------------------------------------------------------
+# reference implementations: "this function computes what the vetted version computed"
+
+
+def reference_value(ctx: Ctx, short: str, qualname: str, ref_src: str, args: dict | None = None):
+    """Abstract value of the vetted reference text of a function, evaluated in the *current* module (so that the
+    helpers, imports and module constants it refers to are today's)."""
+    import textwrap
+
+    from sa.sm import SourceModel
+
+    cache = ctx.__dict__.setdefault("_ref_values", {})
+    key = (short, qualname, ref_src, tuple(sorted((args or {}).items())))
+    if key in cache:
+        return cache[key]
+    f = ctx.sm.func(short, qualname)
+    rel = f.rel
+    text = ctx.sm.text[rel]
+    lines = text.split("\n")
+    start = min([f.node.lineno] + [d.lineno for d in f.node.decorator_list]) - 1
+    end = f.node.end_lineno
+    indent = len(lines[f.node.lineno - 1]) - len(lines[f.node.lineno - 1].lstrip())
+    new = textwrap.indent(textwrap.dedent(ref_src).strip("\n"), " " * indent).split("\n")
+    overlay = dict(getattr(ctx.sm, "overlay", {}) or {})
+    overlay[rel] = "\n".join(lines[:start] + new + lines[end:])
+    sm2 = SourceModel(ctx.repo, overlay=overlay)
+    f2 = sm2.func(short, qualname)
+    val = _av.AV(sm2).returned(f2, args)[0]
+    cache[key] = val
+    return val
+
+
+def same_as_reference(ctx: Ctx, rule: str, short: str, qualname: str, ref_src: str, key: str, what_ok: str, what_fail: str, args: dict | None = None, project=None) -> str:
+    """ok / fail / undecided record: the function's abstract value equals that of the vetted reference text
+    (optionally after a projection `project(value)` that keeps the part the rule is about)."""
+    f = ctx.sm.func(short, qualname)
+    cur = value_of(ctx, f, args)
+    ref = reference_value(ctx, short, qualname, ref_src, args)
+    if project is not None:
+        cur, ref = project(cur), project(ref)
+    vd = verdict(cur, [ref])
+    k = f.key(key)
+    if vd == "unknown":
+        ctx.undecided(rule, k, f"what {qualname} computes is not understood ({(_av.find_all(cur, 'unk') or [('', '?')])[0][1]})", f.where())
+    else:
+        ctx.check(vd == "ok", rule, k, what_ok, f"{what_fail} (it computes {_av.show(cur)[:220]}; vetted: {_av.show(ref)[:220]})", f.where())
+    return vd
